@@ -292,8 +292,17 @@ def _run_ops(ctx, meshes, ops, rng, shuffle):
 # ----------------------------------------------------------------------------- graph-type operators (any mesh with edges)
 def _graph_ops(O, rng_w, nE_hint):
     wdict = _custom_weights(rng_w, nE_hint)
+    again = rng_w.random() < 0.5
+
+    def graph_lap(m):
+        if again:
+            # history on the same mesh object: the vertex degrees were stored by the user, and the operator was already built once
+            import mouette as _M
+            _M.attributes.degree(m)
+            O.graph_laplacian(m)
+        return (O.graph_laplacian(m), build.edges_list(m))
     ops = [
-        ("graph_laplacian", "graph_lap", lambda m: (O.graph_laplacian(m), build.edges_list(m))),
+        ("graph_laplacian", "graph_lap", graph_lap),
         ("adjacency_one", "adjacency", lambda m: (O.adjacency_matrix(m), build.edges_list(m))),
         ("adjacency_length", "adjacency", lambda m: (O.adjacency_matrix(m, weights="length"), build.edges_list(m))),
         ("adjacency_custom", "adjacency", lambda m: (O.adjacency_matrix(m, dict(wdict)), build.edges_list(m))),
